@@ -177,3 +177,41 @@ int bad_prime_pipe__bound__bn_is_prime(const bn_t a) {
   end:
 	return result;
 }
+
+/* ------------------------------------------------------------------ MXP-SIM-SIGN */
+void ok_simsign__bn_mxp_sim_few(bn_t c, const bn_t *a, const bn_t *b, const bn_t m, size_t n) {
+	bn_t t;
+	bn_null(t);
+	bn_new(t);
+	bn_set_dig(c, 1);
+	for (size_t i = 0; i < n; i++) {
+		if (bn_sign(b[i]) == RLC_NEG) {
+			bn_mod_inv(t, a[i], m);
+		} else {
+			bn_copy(t, a[i]);
+		}
+		for (int j = bn_bits(b[i]) - 1; j >= 0; j--) {
+			bn_sqr(c, c);
+			bn_mod(c, c, m);
+			if (bn_get_bit(b[i], j)) {
+				bn_mul(c, c, t);
+				bn_mod(c, c, m);
+			}
+		}
+	}
+}
+
+/* the magnitudes of the exponents only */
+void bad_mxp_sim_sign__magnitude__bn_mxp_sim_few(bn_t c, const bn_t *a, const bn_t *b, const bn_t m, size_t n) {
+	bn_set_dig(c, 1);
+	for (size_t i = 0; i < n; i++) {
+		for (int j = bn_bits(b[i]) - 1; j >= 0; j--) {
+			bn_sqr(c, c);
+			bn_mod(c, c, m);
+			if (bn_get_bit(b[i], j)) {
+				bn_mul(c, c, a[i]);
+				bn_mod(c, c, m);
+			}
+		}
+	}
+}
